@@ -35,3 +35,4 @@ open A2l.Typed
 #print axioms renderSpec_roundtrip_rootStruct
 #print axioms rootStruct_depth
 #print axioms renderSpec_roundtrip_needs_depth
+#print axioms sameName_constant_accepted
